@@ -4,7 +4,7 @@
 From Coq Require Import NArith List Bool.
 Import ListNotations.
 From CXV Require Import Gen.TokTy Parse.Balanced Parse.BalancedThms Parse.Declarator Parse.DeclSpec Parse.DeclThms Parse.DeclPins.
-From CXV Require Import Parse.EnumList Parse.Specs Parse.VarStmt Parse.FnTail.
+From CXV Require Import Parse.EnumList Parse.Specs Parse.VarStmt Parse.FnTail Parse.Init.
 From CXV Require Import Parse.Fold Parse.FoldThms Parse.FoldPlace.
 Open Scope N_scope.
 
@@ -59,6 +59,22 @@ Theorem variable_statement_decodes_partial : forall pre post b items rest,
            rest)).
 Proof. exact var_stmt_roundtrip. Qed.
 
+(* ... and with initialisers: `= expr` reports exactly the tokens of expr (any
+   token-level expression up to the ',' or ';' at depth 0), `{ ... }` the whole
+   brace group; a declarator without one reports no value. *)
+Theorem variable_statement_with_initialisers_decodes_partial : forall pre post b items rest,
+  forallb spec_kw pre = true -> forallb spec_kw post = true ->
+  has T_explicit (pre ++ post) = false -> has T_virtual (pre ++ post) = false -> has T_mutable (pre ++ post) = false ->
+  items <> [] -> Forall item_ok items ->
+  ev (fun f => var_stmt_i (length items) f
+                 (kw_toks pre ++ nm_tok b :: kw_toks post ++ join_comma (map item_toks items) ++ ktok SEMI :: rest))
+     (DOk (apply_kws (pre ++ post) mods0,
+           map (fun it => (snd (fst it),
+                           wrap (TBase b (m_const (apply_kws (pre ++ post) mods0)) (m_volatile (apply_kws (pre ++ post) mods0))) (fst (fst it)),
+                           init_value (snd it))) items,
+           rest)).
+Proof. exact var_stmt_i_roundtrip. Qed.
+
 (* A function declaration `R-declarator( name ( parameters ) )`: the reported
    return type, name, parameter list (types and names in order) and vararg
    flag are those written, for every legal function type (any nesting of the
@@ -106,6 +122,7 @@ Print Assumptions specifiers_decode_partial.
 Print Assumptions specifier_order_irrelevant.
 Print Assumptions specifier_flags_are_memberships.
 Print Assumptions variable_statement_decodes_partial.
+Print Assumptions variable_statement_with_initialisers_decodes_partial.
 Print Assumptions function_declaration_decodes_partial.
 Print Assumptions function_statement_decodes_partial.
 Print Assumptions enumerators_reported_exactly_partial.
